@@ -32,6 +32,7 @@ def view(conn, exporter=True):
          if getattr(conn, "next_proto", None) else None,
          "heartbeat": (conn.heartbeat_supported, conn.heartbeat_can_send,
                        conn.heartbeat_can_receive),
+         "group": getattr(conn, "ecdhCurve", None),
          }
     if s is not None:
         d.update({
